@@ -364,6 +364,24 @@ def check_virtual_now(r: Any, res: UnitResult, rep: dict) -> None:
         res.count("virtual_now_reads")
         if not is_aware_utc(n) or us_of_dt(n) != k:
             res.violation("C36:now:virtual", {"how": name, "clock_us": k, "now": repr(n), "expected": repr(want)}, rep)
+    # a clock handed over in another time zone: now must be aware and denote the SAME INSTANT as the clock (which zone it is
+    # labelled with is only counted: the unchanged library keeps the clock's own zone)
+    if abs(k) <= BOUND - 2 * 86400 * M:
+        for hours in (5.5, -8.0):
+            tz = _dt.timezone(_dt.timedelta(hours=hours))
+            local = want.astimezone(tz)
+            for name, s in (("HistoricalScheduler(datetime%+g)" % hours, _rs.HistoricalScheduler(local)),
+                            ("VirtualTimeScheduler(datetime%+g)" % hours, _rs.VirtualTimeScheduler(local))):
+                n = s.now
+                res.count("virtual_now_reads_zoned_clock")
+                ok = isinstance(n, _dt.datetime) and n.tzinfo is not None and n.utcoffset() is not None and us_of_dt(n) == k
+                if ok and not is_aware_utc(n):
+                    res.count("observation:now_labelled_with_the_clocks_zone")
+                if ok:
+                    # ... and stays consistent with the conversions: seconds of now == seconds of the clock
+                    ok = abs(s.to_seconds(n) - s.to_seconds(s.clock)) < 1e-6 and s.to_datetime(s.to_timedelta(n)) == local
+                if not ok:
+                    res.violation("C36:now:virtual:zoned-clock", {"how": name, "clock": repr(local), "now": repr(n)}, rep)
     res.case(key=("vnow", k), nontrivial=True)
 
 
